@@ -30,6 +30,12 @@ case "$cmd" in
     id="${1:?property id}"; tier="${2:-${VERIF_TIER:-quick}}"
     flags=""
     [ "$id" = "C20" ] && flags="-race"
+    if [ "$tier" = "thorough" ] && [ "$id" != "C20" ]; then
+      # thorough: also measure which statements of the library the workload reaches (reported in the evidence)
+      flags="-cover -coverpkg=github.com/jawher/mow.cli/...,verif/cmd/vcheck"
+      export VERIF_COVER=1
+      mkdir -p "$BUILD/cov0"; export GOCOVERDIR="$BUILD/cov0"   # the parent process is instrumented too
+    fi
     build "$flags"
     "$BUILD/vcheck" run "$id" -tier "$tier"
     exit $?
